@@ -277,9 +277,24 @@ func runMain(args []string) {
 					res = PathResult{Harness: req.Harness, Prefix: req.Prefix, Status: "error", Detail: "bad worker reply: " + err.Error()}
 				}
 				mu.Lock()
+				if res.Status == "retry" && res.RetryMergeLimit > 0 && (req.MergeLimit == 0 || res.RetryMergeLimit < req.MergeLimit) {
+					// run the same path again with the offending merge region (and later ones) forking
+					queue = append(queue, Request{Harness: req.Harness, Prefix: req.Prefix, MergeLimit: res.RetryMergeLimit})
+					sum.Retries++
+					for _, b := range res.Blocks {
+						blocks[b] = true
+					}
+					inflight--
+					mu.Unlock()
+					cond.Broadcast()
+					continue
+				}
+				if res.Status == "retry" {
+					res.Status = "error"
+				}
 				handle(&res)
 				for _, sp := range res.Siblings {
-					queue = append(queue, Request{Harness: req.Harness, Prefix: sp})
+					queue = append(queue, Request{Harness: req.Harness, Prefix: sp, MergeLimit: req.MergeLimit})
 				}
 				inflight--
 				if sum.Paths >= maxPaths {
